@@ -2307,7 +2307,7 @@ class GtkDocCommentBlockWriter(object):
                     serialize_options = ''
 
                     for key, value in options.items():
-                        if value:
+                        if value is not None:
                             serialize_options += '%s=%s ' % (key, value)
                         else:
                             serialize_options += '%s ' % (key, )
